@@ -248,7 +248,7 @@ _C21_SLOW = ("merge_min", "merge_max", "update_i64_min", "update_i64_max", "upda
              "update_scalar_f64_min", "update_scalar_f64_max", "update_scalar_i64_min", "update_scalar_i64_max", "c21_m_finalize_avg")
 
 
-_C21_REAL_TYPE_KEPT = ("c21_m_update_i64_min", "c21_m_update_f64_max", "c21_m_merge_min", "c21_m_merge_max")
+_C21_REAL_TYPE_KEPT = ("c21_m_update_i64_min", "c21_m_merge_min", "c21_m_merge_max")  # c21_m_update_f64_max: no result in 25 min alone (measured)
 
 
 def _c21_harnesses():
@@ -266,7 +266,7 @@ def _c21_harnesses():
             pass
         elif any(t in n for t in _C21_SLOW) and n != "c21_m_finalize_avg_null_rule":
             # MIN/MAX on the real ScalarValue type: 15-29 GB and 4-14 min of CBMC EACH (measured; eight in parallel were
-            # OOM-killed, two in parallel reached 58 GB of 62). The thorough tier keeps four base cases, one at a time
+            # OOM-killed, two in parallel reached 58 GB of 62). The thorough tier keeps three base cases, one at a time
             # (`heavy`); the other starts and the ScalarValue slow path are decided on the carrier instance (c21_c_*),
             # which is the same impl text.
             continue
@@ -308,7 +308,7 @@ PROPS["C21"] = {
                    "NULL input changes nothing, a non-NULL row adds exactly itself, merge adds the abstractions (empty = identity, seen flags OR-ed), finalize yields COUNT=cnt and NULL for "
                    "SUM/AVG/MIN/MAX exactly when no non-NULL input was seen. By induction every batch split and merge order gives the SQL value (pen and paper, two lines).",
     "kani": _c21_harnesses(),
-    "harness_timeout": {"quick": "6m", "thorough": "25m"},
+    "harness_timeout": {"quick": "6m", "thorough": "40m"},
     "trusted_base": [
         "stub: derived ScalarValue::clone replaced by an identical clone on the scalar variants used (Null/Boolean/Int32/Int64/Float64/Date32); any other variant fails the harness",
         "harness floats are bounded in magnitude (<= 1e300) so that sums stay finite: floating overflow is engine-defined and outside the property",
